@@ -25,8 +25,19 @@ func (m *Message) SkipClassAdRaw(ctx context.Context) error {
 		if err := m.ensureData(ctx, 1); err != nil {
 			return fmt.Errorf("failed to skip expression %d (expected %d): %w", i, numExprs, err)
 		}
-		if err := m.SkipString(ctx); err != nil {
+		isMarker, err := m.skipStringIs(ctx, SecretMarker)
+		if err != nil {
 			return fmt.Errorf("failed to skip expression %d (expected %d): %w", i, numExprs, err)
+		}
+		// A private attribute is sent as SecretMarker + a put_secret field: two wire
+		// items counted as ONE expression (see GetClassAdRawBody). Skipping only the
+		// marker would leave the secret field -- written under the sender's
+		// crypto-for-secret state -- to be misread as the next item, so this reader
+		// would consume different bytes than GetClassAd / GetClassAdRaw.
+		if isMarker {
+			if err := m.skipSecretString(ctx); err != nil {
+				return fmt.Errorf("failed to skip secret expression %d (expected %d): %w", i, numExprs, err)
+			}
 		}
 	}
 	if err := m.SkipString(ctx); err != nil {
@@ -64,6 +75,65 @@ func (m *Message) SkipString(ctx context.Context) error {
 			return nil // null terminator
 		}
 	}
+}
+
+// skipStringIs is SkipString that also reports whether the discarded string equals want
+// (what GetString would have returned compared with want), still without allocating the
+// value: only a string exactly as long as want is looked at. want must be non-empty (an
+// empty value is also what GetString returns for HTCondor's NULL-string marker).
+func (m *Message) skipStringIs(ctx context.Context, want string) (bool, error) {
+	if m.stream.IsEncrypted() {
+		length, err := m.GetInt32(ctx)
+		if err != nil {
+			return false, err
+		}
+		n := int(length)
+		if n == len(want) || n == len(want)+1 {
+			data, err := m.GetBytes(ctx, n)
+			if err != nil {
+				return false, err
+			}
+			// the value GetString derives from these bytes
+			if len(data) > 0 && data[0] == BinNullChar {
+				data = nil
+			} else if len(data) > 0 && data[len(data)-1] == 0 {
+				data = data[:len(data)-1]
+			}
+			return string(data) == want, nil
+		}
+		return false, m.discard(ctx, n)
+	}
+	matched, idx := true, 0
+	for {
+		if err := m.ensureData(ctx, 1); err != nil {
+			if err == io.EOF {
+				return matched && idx == len(want), nil // end of message: treat as terminated
+			}
+			return false, err
+		}
+		b, err := m.buffer.ReadByte()
+		if err != nil {
+			return false, err
+		}
+		if b == 0 {
+			return matched && idx == len(want), nil // null terminator
+		}
+		if matched && idx < len(want) && b == want[idx] {
+			idx++
+		} else {
+			matched = false
+		}
+	}
+}
+
+// skipSecretString discards a put_secret-encoded field (the item following a
+// SecretMarker) under the same temporary crypto state getSecretString reads it with.
+func (m *Message) skipSecretString(ctx context.Context) error {
+	if sc, ok := m.stream.(secretCrypto); ok {
+		sc.PrepareCryptoForSecret()
+		defer sc.RestoreCryptoAfterSecret()
+	}
+	return m.SkipString(ctx)
 }
 
 // discard consumes and drops n bytes from the frame buffer, pulling in more frame
